@@ -144,6 +144,12 @@ class Sim:
             e.sim_id = ["storage", tag, self.epoch, 0, n]
             raise e
 
+    def probe(self, name, obj=None):
+        """A user-defined attribute of the machine was evaluated / called (C13: must never happen
+        because of a send())."""
+        self.rec(k="probe", c=name, e=self.epoch)
+        return 1
+
     def rec(self, **kw):
         self.seq += 1
         kw["q"] = self.seq
